@@ -240,7 +240,11 @@ def _load(case, kinds, plans, y, g, cf, levels, xkind):
     kw = {"sensitive_features": gen.wrap_vector(kinds[1], g, plans[1], name="s")}
     if cf is not None and case["moment"] not in ("BoundedGroupLoss",):
         kw["control_features"] = gen.wrap_vector(kinds[2], cf, plans[2], name="c")
-    m.load_data(_X(levels, xkind, plans[3]), gen.wrap_vector(kinds[0], y, plans[0], name="y"), **kw)
+    Xo, yo = _X(levels, xkind, plans[3]), gen.wrap_vector(kinds[0], y, plans[0], name="y")
+    snap = gen.snapshot((Xo, yo, kw))
+    m.load_data(Xo, yo, **kw)
+    if not gen.unchanged(snap, (Xo, yo, kw)):
+        raise PropertyViolation(f"{case['moment']}.load_data modified one of its arguments in place")
     return m
 
 
@@ -367,8 +371,12 @@ def check_threshold_optimizer(case):
         X = _X(scores, xkind, plans[2])
         # labels in {0,1} may arrive as ints, floats or bools (only in the container run; the reference uses ints)
         cast = {"int": int, "float": float, "bool": bool}[case.get("y_dtype", "int") if kinds[0] != "ndarray" or plans[0] != "default" else "int"]
-        to.fit(X, gen.wrap_vector(kinds[0], [cast(v) for v in y], plans[0], name=case["yname"]),
-               sensitive_features=gen.wrap_vector(kinds[1], g, plans[1], name="s"))
+        yo = gen.wrap_vector(kinds[0], [cast(v) for v in y], plans[0], name=case["yname"])
+        so = gen.wrap_vector(kinds[1], g, plans[1], name="s")
+        snap = gen.snapshot((X, yo, so))
+        to.fit(X, yo, sensitive_features=so)
+        if not gen.unchanged(snap, (X, yo, so)):
+            raise PropertyViolation("ThresholdOptimizer.fit modified one of its arguments in place")
         return to, X
 
     ref, Xr = fit(["ndarray", "ndarray"], ["default"] * 3, "ndarray")
@@ -380,7 +388,12 @@ def check_threshold_optimizer(case):
     # at predict time the groups arrive in yet another container (also object-dtype arrays / Series): the rule of a
     # group is found whatever container carried its label at fit time
     pk = case.get("predict_kind") or case["kinds"][1]
-    pb = got._pmf_predict(Xg, sensitive_features=gen.wrap_vector(pk, g, case["plans"][3], name="s"))
+    sq = gen.wrap_vector(pk, g, case["plans"][3], name="s")
+    snapq = gen.snapshot((Xg, sq))
+    pb = got._pmf_predict(Xg, sensitive_features=sq)
+    got.predict(Xg, sensitive_features=sq, random_state=1)
+    if not gen.unchanged(snapq, (Xg, sq)):
+        raise PropertyViolation("ThresholdOptimizer prediction modified its arguments in place")
     if not np.allclose(pa, pb, rtol=0, atol=1e-12):
         raise PropertyViolation("ThresholdOptimizer: _pmf_predict differs between containers and plain ndarrays")
     ya = ref.predict(Xr, sensitive_features=np.asarray(g), random_state=case["seed"])
@@ -429,7 +442,11 @@ def check_reduction(case):
         else:
             est = fr.GridSearch(ExactTable(), m, grid_size=case["grid_size"], constraint_weight=0.5)
         cast = {"int": int, "float": float, "bool": bool}[case.get("y_dtype", "int") if kinds[0] != "ndarray" or plans[0] != "default" else "int"]
-        est.fit(X, gen.wrap_vector(kinds[0], [cast(v) for v in y], plans[0], name="y"), **kw)
+        yo = gen.wrap_vector(kinds[0], [cast(v) for v in y], plans[0], name="y")
+        snap = gen.snapshot((X, yo, kw))
+        est.fit(X, yo, **kw)
+        if not gen.unchanged(snap, (X, yo, kw)):
+            raise PropertyViolation(f"{which}.fit modified one of its arguments in place")
         return est, X
 
     try:
